@@ -9,6 +9,7 @@ ROOT = os.path.dirname(os.path.dirname(os.path.abspath(__file__)))
 ALL = [f"C{i:02d}" for i in range(1, 30)]
 
 # pid -> dict(engine, technique, text, note, design_ref)
+JT = "Trusted: spec/jets/CQ.tla (truncated Taylor series in two nilpotent variables over the Gaussian rationals) as the DEFINITION of directional derivatives (Taylor's theorem), the mathematical definitions in UFLBuild.tla, vf/sem.py for reading the value of the expanded expression (derivatives then act on terminals only, whose derivative data is environment data), generic distinct small rational data incl. independent first and (symmetric) second derivatives; points where an operator is not differentiable (abs/sign/conditions at 0, non-square roots) are undefined and skipped; refusals (raises) are accepted and counted."
 BT = "Trusted: the mathematical definitions in UFLBuild.tla/CQ.tla; the evaluator vf/sem.py that reads the denotation of implementation-built objects (exercised against TLC's predictions on every program); environments with pairwise distinct small rationals; predictions that leave the exact rational range (|n|,d > 32000, irrational roots) are undefined and skipped (counted). Bounded: exhaustive within each slice's operator alphabet/levels, simulation beyond."
 CHECKS = {
     "C25": dict(
@@ -17,6 +18,27 @@ CHECKS = {
         text="The intended inclusion relation is specified in TLA+; TLC checks the partial-order and operator-consistency laws on every triple of spaces (12 predefined + every directional space of dimension 1..3, orders 0..3 and inf) and emits the complete table; every operator (<,<=,>,>=,==,!=,in) of the real classes is compared with it on every ordered pair and the laws are re-checked on the real objects over all triples. The space is finite and enumerated completely, so this is exhaustive for the stated universe.",
         note="Trusted: the intended relation in Sobolev.tla (closure of the declared parent graph; D(o)=H^k when isotropic; H^max(o) <= D(o) <= H^min(o)); comparisons that sobolevspace.py declares unknown (directional vs HEin/HDivDiv/HCurlDiv) may raise NotImplementedError.",
         design_ref="DESIGN.md §3 C25",
+    ),
+    "C02": dict(
+        engine="UFLBuild",
+        technique="TLC enumeration of UFLBuild programs under the series semantics of spec/jets/CQ.tla: the coefficient w is seeded as w + s v (+ t v2) and derivative(F, w, v) is BY DEFINITION the s-coefficient of F's series (no differentiation rule in the specification) + replay through ufl.derivative / expand_derivatives and exact evaluation of the expanded expression",
+        text="Programs [integrand over the seeded coefficient and its gradient (independent data perturbed by grad v), derivative(., w, v), optionally a second derivative, expand_derivatives] are enumerated level by level over arithmetic, powers, abs, sqrt, conditionals, min/max/sign, indexing, dot/inner/outer, list tensors, traces; slices: scalar coefficient, vector coefficient, fixed component u[1], second derivatives (mixed directions), user-supplied coefficient derivatives incl. grad of the dependent coefficient. Each is replayed through the public API and the expanded derivative evaluated with the same data; every component compared exactly; no CoefficientDerivative may remain.",
+        note=JT,
+        design_ref="DESIGN.md §3 C02",
+    ),
+    "C03": dict(
+        engine="UFLBuild",
+        technique="TLC enumeration of UFLBuild programs under the series semantics of spec/jets/CQ.tla: terminals seeded with independent first/second derivative data per pair of directions; grad/div/curl/nabla_grad/nabla_div/.dx of ANY expression read off the series coefficients (no differentiation rule in the specification) + replay through ufl's operators and apply_derivatives(apply_algebra_lowering(.)) with exact evaluation; structural postcondition (derivatives on terminals only)",
+        text="Programs [expressions, spatial derivative operators, more algebra or a second derivative operator, apply_derivatives] in 2D and 3D (curl of vectors and scalars, divergence contracting the last axis, nabla_div the first, nabla_grad index order, .dx(i)) over products, quotients, powers, abs, sqrt, dot/inner/outer, indexing, transposes, list tensors are enumerated level by level; the expanded expression must contain Grad only on terminals and evaluate, with the terminals' derivative data, to the series coefficients predicted by the specification (up to two nested derivatives).",
+        note=JT + " Geometric quantities under grad are not part of this check's environments.",
+        design_ref="DESIGN.md §3 C03",
+    ),
+    "C04": dict(
+        engine="UFLBuild",
+        technique="TLC enumeration of UFLBuild programs under the series semantics of spec/jets/CQ.tla: variable(e) is created by an action that perturbs its VALUE along its own components; diff(f, v)[cf, cv] is the series coefficient of f along component cv (everything not expressed through v is unperturbed) + replay through ufl.variable / ufl.diff / expand_derivatives with exact evaluation",
+        text="Programs [variable of a terminal or of an expression, expressions on it, diff (possibly twice), expand_derivatives] for scalar, vector and 2x2 tensor variables, nested variables (a plain variable between v and f), repeated diff and diff with respect to a coefficient are enumerated level by level; the result must have shape f.shape + v.shape and every component equal to the predicted partial derivative; no VariableDerivative may remain.",
+        note=JT,
+        design_ref="DESIGN.md §3 C04",
     ),
     "C05": dict(
         engine="UFLBuild",
